@@ -4,9 +4,15 @@
    from the EVM is refunded to its sender in ERC-20 form exactly once when it times out or is rejected, and its
    tracking record is removed on success, failure and timeout alike. *)
 From Coq Require Import ZArith List Bool.
-From FxV Require Import model.M_Cache model.M_Ibc proofs.P_Ibc.
+From FxV Require Import model.M_Cache model.M_CacheShape model.M_Ibc proofs.P_Cache proofs.P_Ibc.
 Import ListNotations.
 Open Scope Z_scope.
+
+(* tie to the sources (translator harness/gen_c18): middleware receive / ack / timeout call order, the keeper hook, which
+   relation key each path deletes, ibc-go's RecvPacket cache rule — as transcribed in M_Ibc.v *)
+Theorem C19_source_shape : source_shapes_ok = true.
+Proof. exact source_shapes. Qed.
+Print Assumptions C19_source_shape.
 
 (* error acknowledgement => the state is exactly what it was *)
 Theorem C19_recv_error_credits_nothing :
